@@ -182,6 +182,12 @@ pub struct StreamSt {
     pub out_dropped: bool,
     pub polled_pending: u32,
     pub depth: usize,
+    /// times this stream has woken its own waker from inside poll_next
+    pub self_wakes: u8,
+    /// poll_next has returned None
+    pub end_returned: bool,
+    /// the stream is inside the wake_by_ref call it makes from poll_next
+    pub in_self_wake: bool,
 }
 
 #[derive(Clone, Debug, PartialEq)]
@@ -218,6 +224,8 @@ pub struct Violation {
 /// Counters used to classify cases (non-triviality rules, evidence histograms)
 #[derive(Clone, Debug, Default)]
 pub struct Stats {
+    /// an input stream woke its own waker from inside poll_next
+    pub stream_self_wakes: u32,
     /// a stream ended because the library dropped the stream that owned its sender (chained pipes)
     pub chained_closes: u32,
     /// a consumer's throw-away poll of a pipe output found nothing, so it then waited with a different waker
